@@ -152,7 +152,7 @@ H("k01d_idat_desc_rt", "idat_parse", ["C01", "C04"], unwind=7, timeout=900, mem_
   bounds="every chunk-size vector of length <= 2 with sizes 1..2^30 (parse_idat never records a zero-length chunk: k01e), any header/Adler bytes")
 IDAT_FUNCS = ["idat_parse::parse_idat", "idat_parse::recreate_idat"]
 IDAT_ASSUME = ["chunk length fields concrete per instance, every other byte symbolic (symbolic lengths: 30 GB were not enough for 21 bytes)",
-               "crc32fast::Hasher::update stubbed with a cheap byte mixer (checksum value is not the subject; same function on both sides)"]
+               "crc32fast::Hasher::update switched (flag in the shim crate, also active in native replays) to a cheap byte mixer (checksum value is not the subject; same function on both sides)"]
 IDAT_UW = {"update_cheap": 24, "crc32fast.*update": 24, "idat_shape": 46, "parse_idat": 5, "recreate_idat": 4}
 for nm, cl, bd in (("one_chunk", "one IDAT chunk of 7 payload bytes, nothing behind it", "payload length 7"),
                    ("one_chunk_tail", "one IDAT chunk followed by 8 / 20 arbitrary bytes", "payload 6 + 8 trailing bytes; payload 9 + 20 trailing bytes"),
@@ -268,7 +268,7 @@ H("k02f_block_structure", "process", ["C02", "C08", "C05"], tier="experimental",
              "DeflateWriter::encode_block", "DeflateWriter::flush_with_padding"],
   bounds="every list of <= 3 blocks, each stored (<= 2 bytes, any 5 padding bits) or fixed-Huffman with <= 2 literals; max_token_count any u16 >= 1; any final padding byte; no dictionary (HashAlgorithm::None)",
   outside="dynamic blocks (need the Huffman length calculator over 316 symbols), reference tokens (k02e)", assumptions=FIXED_ASSUME[:1] + ["recording codec Rec"])
-H("k03e_consumed_prefix", "process", ["C03", "C02", "C05"], tier="thorough", unwind=10, timeout=1200, mem_gb=12,
+H("k03e_consumed_prefix", "process", ["C03", "C02", "C05"], tier="thorough", unwind=10, timeout=3000, mem_gb=12,
   claim="parse_deflate: compressed_size is the byte cursor after the final block; bytes after it influence nothing (replaced or removed: same result)",
   functions=["process::parse_deflate", "DeflateReader::read_block (stored)", "DeflateReader::read_eof_padding"], bounds="all 8-byte inputs whose single final block is stored (payload 0..=3)")
 
@@ -345,14 +345,18 @@ H("k13c_recreate_idat_partial_writes", "idat_parse", ["C13", "C01"], unwind=6, u
 H("k03f_write_reference", "deflate_reader", ["C03"], unwind=4, unwindset={"write_reference": 260}, timeout=2400, mem_gb=20,
   claim="DeflateReader::write_reference implements the RFC 1951 window copy (each new byte equals the byte `dist` back), no out-of-range index",
   functions=["DeflateReader::write_reference"], bounds="every distance 1..=64 (symbolic) x lengths 3 and 70 (overlapping copy) over a 64-byte window with position-dependent content; the checked output index is symbolic")
+H("k03f_write_reference_far3", "deflate_reader", ["C03", "C05"], tier="quick", unwind=6, unwindset={"write_reference": 6, "write_reference_far": 6}, timeout=1800, mem_gb=20,
+  claim="as k03f_write_reference at the far end of a full 32 KiB window, short copies", functions=["DeflateReader::write_reference"],
+  bounds="(distance, length) = (32768,3) (32767,3) (32766,4) over a 32768-byte window of position-dependent content", outside="other far distances; long copies at far distances",
+  assumptions=["alloc::alloc::realloc stubbed by an assertion that it is unreachable (the window Vec is given capacity for the copy up front)"])
 H("k03f_write_reference_far", "deflate_reader", ["C03"], tier="experimental", unwind=4, unwindset={"write_reference": 260}, timeout=2400, mem_gb=20,
   claim="as k03f_write_reference at the far end of a full window", functions=["DeflateReader::write_reference"],
   bounds="(distance, length) = (32768,258) (32768,3) (32767,258) (4096,3) over a 32768-byte window", outside="other distances above 300")
 G_UW = {"decode_symbol": 11, "BitReader.*get": 4, "put_bits": 14, "put_code": 10, "k03g": 32, "read_block": 3, "decode_block": 3}
-for nm, tier in (("len_27_28", "quick"), ("dist_28_29", "quick"), ("len_24_28", "thorough"), ("dist_24_29", "thorough"), ("len_0_7", "thorough"), ("len_8_15", "thorough"), ("len_16_23", "thorough"),
-                 ("dist_0_7", "thorough"), ("dist_8_15", "thorough"), ("dist_16_23", "thorough")):
+for nm, tier in (("len_27_28", "quick"), ("dist_28_29", "quick"), ("len_24_28", "thorough"), ("dist_24_29", "thorough"), ("len_0_7", "thorough"), ("len_8_11", "thorough"), ("len_12_15", "thorough"), ("len_16_19", "thorough"), ("len_20_23", "thorough"),
+                 ("dist_0_7", "thorough"), ("dist_8_11", "thorough"), ("dist_12_15", "thorough"), ("dist_16_19", "thorough"), ("dist_20_23", "thorough")):
     kind, lo, hi = nm.split("_")
-    H("k03g_fixed_reader_" + nm, "deflate_reader", ["C03", "C07", "C05"], unwind=6, unwindset=dict(G_UW, len_codes=10, dist_codes=10), timeout=2400, mem_gb=20, needs_gen=True, tier=tier,
+    H("k03g_fixed_reader_" + nm, "deflate_reader", ["C03", "C07", "C05"] if tier == "quick" else ["C03"], unwind=6, unwindset=dict(G_UW, len_codes=10, dist_codes=10), timeout=3600, mem_gb=20, needs_gen=True, tier=tier,
       claim="the real reader (read_block / decode_block / decode_symbol / BitReader) decodes a fixed-Huffman reference token to RFC 1951's base + extra for %s codes %s..=%s with every extra-bit value, flags 284+31, and consumes exactly the bytes of the block" % ("length" if kind == "len" else "distance", lo, hi),
       functions=["DeflateReader::read_block", "DeflateReader::decode_block", "huffman_helper::decode_symbol", "BitReader::get", "LENGTH_/DIST_ BASE/EXTRA tables"],
       bounds="%s codes %s..=%s (concrete, looped) x all extra-bit values (symbolic); the other code fixed to its first entry" % (kind, lo, hi),
@@ -428,6 +432,19 @@ H("k01g_idat_chunk_framing", "preflate_container", ["C01", "C04"], tier="experim
   functions=["write_chunk_block (IDAT arm)", "read_chunk_block (PNG arm)", "IdatContents::write_to_bytestream/read_from_bytestream", "idat_parse::recreate_idat"],
   bounds="two IDAT chunks (7 + 4), plaintext 1 byte, corrections 2 bytes (symbolic)", assumptions=["recompress_deflate_stream replaced by an echo stand-in", "checksum replaced by a cheap byte mixer"])
 
+SCANC_ASSUME = ["next_signature replaced by its contract (None, or Some(kind) with the cursor moved forward to a position <= len-2), discharged by k01n_next_signature_contract / k06d", "decompress_deflate_stream, skip_gzip_header, parse_zip_stream, parse_idat replaced by contract stubs (Err, or Ok with any consumed length the real function can report), discharged by k07a/k03e, k01_gzip_hdr_16, k01_zip_hdr_34, k01e_idat_*"]
+for k, to, mem in ((1, 1200, 16), (2, 2400, 24), (3, 3600, 40)):
+    H("k01s_scan_cursor_%d" % k, "scan_deflate", ["C01", "C05", "C06"], tier=("quick" if k <= 2 else "thorough"), unwind=k + 3, unwindset={"scan_cursor": 2 * k + 3}, timeout=to, mem_gb=mem, kani_args=["-Z", "unstable-options", "--no-memory-safety-checks"],
+      claim="split_into_deflate_streams never panics (no index out of range, no arithmetic overflow / wrap-around) and its chunk list tiles the file exactly, and every PNG chunk it emits satisfies recreate_idat's size equation, for every cursor position and every outcome of the callees",
+      functions=["scan_deflate::split_into_deflate_streams"], bounds="file length 0..=1100 (symbolic); at most %d signature hit(s), each of symbolic kind at a symbolic offset; symbolic consumed lengths / header sizes / IDAT chunk size; each hit accepted or rejected" % k,
+      outside="more than %d hits per file; IDAT runs of more than one chunk" % k, assumptions=SCANC_ASSUME + ["CBMC's pointer-validity checks off for this harness (safe Rust: index and overflow checks are explicit panics and stay checked)", "Vec::push replaced by an equivalent that asserts the capacity suffices (result Vec pre-sized) and case-splits on the length so that elements are written at concrete offsets"])
+H("k01s_scan_step", "scan_deflate", ["C01", "C05", "C06"], tier="quick", unwind=5, unwindset={"scan_cursor": 7}, timeout=2400, mem_gb=24, kani_args=["-Z", "unstable-options", "--no-memory-safety-checks"],
+  claim="one iteration of the scanner loop from an arbitrary reachable cursor state (prev_index == P for any 3 <= P <= n, chunks so far tiling [0, P), cursor anywhere at or after P) never panics, never wraps, keeps the chunk list tiling the file, and emits only reconstructible PNG chunks; with k01s_scan_cursor_1 (state prev_index == 0) this is an inductive argument for files with any number of signature hits",
+  functions=["scan_deflate::split_into_deflate_streams"], bounds="file length 0..=1100 (symbolic); the state is produced by one accepted zlib stream at a symbolic position with a symbolic consumed length; the following hit has symbolic kind, position and outcome",
+  outside="IDAT runs of more than one chunk; the induction itself (prev_index == index after every accept, only index moves after a reject) is argued in DESIGN, not solver-checked", assumptions=SCANC_ASSUME + ["CBMC's pointer-validity checks off for this harness (safe Rust: index and overflow checks are explicit panics and stay checked)", "Vec::push replaced by an equivalent that asserts the capacity suffices (result Vec pre-sized) and case-splits on the length so that elements are written at concrete offsets"])
+H("k01n_next_signature_contract", "scan_deflate", ["C01", "C05", "C06"], tier="quick", unwind=7, timeout=900,
+  claim="next_signature: None leaves the cursor untouched; Some moves it forward to a position <= len-2 holding a signature; no signature between the old and new cursor is skipped",
+  functions=["scan_deflate::next_signature"], bounds="every slice of <= 5 bytes, every start cursor 0..=6 (incl. past the end)", outside="longer slices (the loop body is position-independent)")
 H("k01h_idat_arm_reconstructible", "scan_deflate", ["C01"], tier="experimental", unwind=5, unwindset={"next_signature": 1062, "k01h": 6}, timeout=1800, mem_gb=20,
   claim="every PNG chunk the scanner emits satisfies recreate_idat's precondition: sum(chunk sizes) == compressed_size + 6, for every consumed length the analysis may report",
   functions=["scan_deflate::split_into_deflate_streams (IDAT arm)", "scan_deflate::next_signature"],
